@@ -667,7 +667,7 @@ class MemorizedFunc(Logger):
         # same function can be cached in several locations whose stored code
         # differ.
         location = getattr(self.store_backend, "location", None)
-        return id(self.func), hash(self.func), func_code_h, location
+        return id(self.func), hash(self.func), func_code_h, location, self.func_id
 
     def _write_func_code(self, func_code, first_line):
         """Write the function code and the filename to a file."""
@@ -692,6 +692,14 @@ class MemorizedFunc(Logger):
             except TypeError:
                 # Some callable are not hashable
                 pass
+        # Another live function cached under the same identifier in the same
+        # location (e.g. the same name redefined while the previous function
+        # object is still in use) must compare its code with the store again:
+        # the code and the results stored there are not its own anymore.
+        stored_under = (getattr(self.store_backend, "location", None), self.func_id)
+        for other, other_hash in list(_FUNCTION_HASHES.items()):
+            if other is not self.func and other_hash[-2:] == stored_under:
+                _FUNCTION_HASHES.pop(other, None)
 
     def _check_previous_func_code(self, stacklevel=2):
         """
